@@ -416,16 +416,20 @@ func envSubstWithOptions() yqAction {
 		noEmpty := hasOptionParameter(value, "ne")
 		noUnset := hasOptionParameter(value, "nu")
 		failFast := hasOptionParameter(value, "ff")
-		envsubstOpType.Type = "ENVSUBST"
+		// the options show in the name of the operation type: each operation gets a type of its own for that, because
+		// envsubstOpType is shared by every expression (and every goroutine that parses one) and must not be written to
+		typeName := "ENVSUBST"
 		prefs := envOpPreferences{NoUnset: noUnset, NoEmpty: noEmpty, FailFast: failFast}
 		if noEmpty {
-			envsubstOpType.Type = envsubstOpType.Type + "_NO_EMPTY"
+			typeName = typeName + "_NO_EMPTY"
 		}
 		if noUnset {
-			envsubstOpType.Type = envsubstOpType.Type + "_NO_UNSET"
+			typeName = typeName + "_NO_UNSET"
 		}
 
-		op := &Operation{OperationType: envsubstOpType, Value: envsubstOpType.Type, StringValue: value, Preferences: prefs}
+		opType := *envsubstOpType
+		opType.Type = typeName
+		op := &Operation{OperationType: &opType, Value: typeName, StringValue: value, Preferences: prefs}
 		return &token{TokenType: operationToken, Operation: op}, nil
 	}
 }
